@@ -1,3 +1,4 @@
+// (site sweep: profile / single call-site targeting added)
 // Deterministic simulation of threads and clocks by interposing the pthread / clock_gettime ABI (DESIGN §2.3).
 // The interposers live in the harness executable, so every std::mutex, std::condition_variable and std::chrono clock
 // used by code compiled from /repo (and by libstdc++) goes through them. When the simulator is off, or the caller is
@@ -35,6 +36,14 @@ namespace sim
         // in every run with a tiny probability. Addresses are stable: the harness runs with ASLR off.
         int instr_target_mod{0};
         int instr_target_cap{20000};      // per run; each selected call site is a pre-emption point on its first 64 entries
+        // Systematic site sweep (DESIGN 2.3, "site sweep"): a *profile* run (instr_profile) lists every distinct call site that
+        // a simulated thread entered while another thread was runnable; the driver then runs the same scenario once per listed
+        // site with instr_site set: that one call site is the run's only extra pre-emption point (entries instr_site_skip ..
+        // +64 while another thread is runnable), and the thread switched to gets a priority burst. One pre-emption per site,
+        // every site: a window that is one call wide is found by enumeration instead of by luck.
+        bool instr_profile{false};
+        unsigned long long instr_site{0};
+        int instr_site_skip{0};
         std::vector<long long> tape;
         bool use_tape{false};
         bool record_tape{false};
@@ -64,6 +73,9 @@ namespace sim
     const Stats &stats();
     const std::vector<int> &trace();
     const std::vector<long long> &tape_record();      // decisions taken (when Config::record_tape or use_tape)
+    struct SiteInfo { unsigned long long site; int thread; long long entries; long long first_step; };
+    std::vector<SiteInfo> profiled_sites();           // instr_profile: distinct (call site, thread) pairs in first-seen order
+    int thread_state(int id);                         // 0 runnable, 1 blocked on a mutex, 2 in an untimed wait, 3 in a timed wait, 4 sleeping, 5 done
     unsigned long long trace_hash();
     // the running thread is inside a region where being the last runnable thread means "nobody can notify": used by the
     // lost wake-up oracle; set by the harness around engine waits is not needed - the scheduler logs forced timeouts itself.
